@@ -212,6 +212,23 @@ func c15CheckSubset(c *Ctx, mask int, reversed bool) (evals int64, nontrivial bo
 	ce := urlfilter.NewCosmeticEngine(st)
 	en := urlfilter.NewEngine(st)
 	reported := false
+	// results already handed out stay what they were while other host names are asked for
+	type heldResult struct {
+		what string
+		res  urlfilter.CosmeticResult
+		snap string
+	}
+	var held []heldResult
+	defer func() {
+		for _, hr := range held {
+			if now := renderCosmeticLocal(hr.res); now != hr.snap && !reported {
+				reported = true
+				c.Run.Violate(ev.Violation{Pred: "returned-result-stays-unchanged", Sig: map[string]any{"rules": lines, "query": hr.what},
+					What:   fmt.Sprintf("rules %v: the result of %s was %s when it was returned; after the queries for the other host names the same result object holds %s", lines, hr.what, hr.snap, now),
+					Replay: map[string]any{"mask": mask, "reversed": reversed}})
+			}
+		}
+	}()
 	for _, h := range c15Hosts {
 		for flags := 0; flags < 8; flags++ {
 			css, js, generic := flags&1 != 0, flags&2 != 0, flags&4 != 0
@@ -237,6 +254,9 @@ func c15CheckSubset(c *Ctx, mask int, reversed bool) (evals int64, nontrivial bo
 			}
 			for which, res := range []urlfilter.CosmeticResult{ce.Match(h, css, js, generic), en.GetCosmeticResult(h, opt)} {
 				evals++
+				if flags == 7 || flags == 5 {
+					held = append(held, heldResult{fmt.Sprintf("%s(%q, flags %03b)", []string{"CosmeticEngine.Match", "Engine.GetCosmeticResult"}[which], h, flags), res, renderCosmeticLocal(res)})
+				}
 				gotG, gotS := sortedSet(res.ElementHiding.Generic), sortedSet(res.ElementHiding.Specific)
 				if (!eqStrings(gotG, wantG) || !eqStrings(gotS, wantS)) && !reported {
 					reported = true
